@@ -714,6 +714,7 @@ fn render(spec: &Spec, k: usize, over: &dyn Fn(usize, usize, usize) -> Option<St
 
 const CLASS_CHARS: &[(&str, char)] = &[
     ("digit", '7'),
+    ("zero", '0'),
     ("upper", 'Q'),
     ("lower", 'q'),
     ("blank", ' '),
@@ -850,6 +851,11 @@ pub fn candidates(spec: &Spec, k: usize, r: &mut Rng, random_extra: usize) -> Ve
         for extra in [1usize, 2] {
             let counts = |l2: usize| if l2 == li { spec.lines[li].repeat + extra } else { default_counts(l2) };
             out.push(Candidate { content: render(spec, k, &none, &counts), component: lname.clone(), class: format!("lines=max+{extra}") });
+            // the same with every other optional line absent (a limit that counts an optional line in)
+            if spec.lines.iter().enumerate().any(|(l2, x)| l2 != li && x.optional) {
+                let counts = |l2: usize| if l2 == li { spec.lines[li].repeat + extra } else if spec.lines[l2].optional { 0 } else { default_counts(l2) };
+                out.push(Candidate { content: render(spec, k, &none, &counts), component: lname.clone(), class: format!("lines=max+{extra},optional-lines-absent") });
+            }
         }
     }
     // whole-content classes
